@@ -244,13 +244,13 @@ def registryOf (st : St) (s : String) : Option (List (String × Shape)) :=
 
 def step (st : St) (line : String) : St × String :=
   match line.splitOn "|" with
-  | ["cls", cid, m, n, k, imp, anc, fs] =>
-    match strOf m, strOf n, kindOf k, parseBool? imp, listOf ";" strOf anc, listOf ";" fieldOf fs with
-    | some md, some nm, some kd, some im, some an, some fl =>
-      let c : Shape := { module := md, name := nm, kind := kd, fields := fl, ancestors := an }
+  | ["cls", cid, m, n, qn, k, imp, anc, fs] =>
+    match strOf m, strOf n, strOf qn, kindOf k, parseBool? imp, listOf ";" strOf anc, listOf ";" fieldOf fs with
+    | some md, some nm, some qname, some kd, some im, some an, some fl =>
+      let c : Shape := { module := md, name := nm, kind := kd, fields := fl, ancestors := an, qualname := qname }
       let st1 := { st with classes := dset st.classes cid c }
       (if im then { st1 with cenv := dset st1.cenv c.qual c } else st1, "ok")
-    | _, _, _, _, _, _ => (st, "bad-op")
+    | _, _, _, _, _, _, _ => (st, "bad-op")
   | ["xcls", xid, q, imp, ctor, pre, post] =>
     match strOf q, parseBool? imp, parseBool? ctor, strOf pre, strOf post with
     | some ql, some im, some ct, some pr, some po =>
